@@ -16,7 +16,7 @@ RULE = ("bounded-exhaustive bracket sequences: every sequence of N leaves from {
 ASSUMPTIONS = ["programs whose only issue is gates after a trailing unmatched prepare_all are not judged (statement ambiguous)",
                "termination of accepted programs is C08's clause: a step-budget overrun here is inconclusive for C12"]
 TIERS = {"quick": {"shards": 8, "budget_s": 120}, "thorough": {"shards": 16, "budget_s": 480}}
-REQUIRE = {"bracket-programs-through-CircuitBuilder": 150, "built-through-CircuitBuilder": 300, "idle-gate-variants": 2000, "loop-count-overridden-programs": 1000, "object-assembled-programs": 2000, "ref-accept": 500, "ref-reject:measure-without-prepare": 100, "ref-reject:gate-outside-subcircuit": 100,
+REQUIRE = {"circuits-grown-between-runs": 500, "two-level-macro-programs:G": 200, "two-level-macro-programs:S": 100, "bracket-programs-through-CircuitBuilder": 150, "built-through-CircuitBuilder": 300, "idle-gate-variants": 2000, "loop-count-overridden-programs": 1000, "object-assembled-programs": 2000, "ref-accept": 500, "ref-reject:measure-without-prepare": 100, "ref-reject:gate-outside-subcircuit": 100,
            "ref-reject:measure-in-loop-closes-earlier-prepare": 50, "states-compared": 500}
 
 
@@ -25,6 +25,9 @@ def judge(case):
     ov = dict(case.get("ov") or {})
     asm = case.get("assemble")
     st, s = X.setup(prog, ov or None, assemble=("builder", case.get("bseed", 0)) if asm == "builder" else bool(asm))
+    if st.startswith("skipped:input-rejected:JaqalError") and not asm and refused_when_built(prog, ov):
+        # a well-bracketed, legally nested program over the gate set, refused before it could run
+        return "ok", [("rejects-acceptable-program:when-built", {"error": str(s.parse_outcome[2])[:200]})], {"ref": "accept"}
     if st != "ok":
         return st, [], None
     if case.get("order") == "ML":
@@ -48,6 +51,17 @@ def judge(case):
     if scan is not None and scan["trailing_gates"]:
         return "skipped:trailing-gates-ambiguous", [], None
     info["ref"] = "accept" if rule is None else "reject:" + rule
+    if case.get("grow"):
+        # a circuit put together in stages (the only way to fill a Circuit made with the core constructors is to add to
+        # its tables): run when only the first statements are there -- whatever that gives --, add the rest, run again.
+        # The second run is a run of the whole program.
+        stmts = s.c.body.statements
+        m = min(int(case["grow"]), len(stmts))
+        held = stmts[len(stmts) - m:]
+        del stmts[len(stmts) - m:]
+        X.run(s, ov or None, seed=1)
+        stmts.extend(held)
+        info["grown"] = 1
     o = X.run(s, ov or None, seed=1)
     fails = []
     if o[0] == "budget":
@@ -109,6 +123,110 @@ def macroify_subcircuits(prog):
     out = tuple(("loop", 1, ("sequential_block", x)) if (isinstance(x, tuple) and x[0] == "subcircuit_block") else x for x in out)
     k = max([i for i, x in enumerate(out) if isinstance(x, tuple) and x[0] in sx.HEADER] + [0])
     return out[:k + 1] + (("macro", "mx1", "a", ("sequential_block", ("gate", "X", "a"))),) + out[k + 1:]
+
+
+def nesting_through_macros_ok(prog):
+    """No call of a macro that holds a subcircuit block (itself or through the macros it calls) from inside a subcircuit
+    block or a parallel block -- the indirect form of the nesting rule."""
+    holds = {}
+
+    def has_sub(s):
+        if not isinstance(s, tuple):
+            return False
+        if s[0] == "subcircuit_block":
+            return True
+        if s[0] == "gate":
+            return holds.get(s[1], False)
+        return any(has_sub(x) for x in s[1:])
+
+    def ok(s, inside):
+        if not isinstance(s, tuple):
+            return True
+        if s[0] == "gate":
+            return not (inside and holds.get(s[1], False))
+        if s[0] in ("subcircuit_block", "parallel_block"):
+            return all(ok(x, True) for x in s[1:])
+        return all(ok(x, inside) for x in s[1:])
+
+    for s in prog[1:]:
+        if s[0] == "macro":
+            if not ok(s[-1], False):
+                return False
+            holds[s[1]] = has_sub(s[-1])
+        elif s[0] not in sx.HEADER and not ok(s, False):
+            return False
+    return True
+
+
+def refused_when_built(prog, ov):
+    """The parser (or builder) refused the program.  Is it one that ought to run?  Decided on the model alone."""
+    if not sx.legal_nesting(prog) or not nesting_through_macros_ok(prog):
+        return None
+    try:
+        core = M.core_from_sx(prog)
+        M.validate(core, ov or {})
+        tree = M.full_meaning(core, env=ov or {})
+        funds = core.fundamental()
+        if len(funds) != 1:
+            return None
+        n = len(M.Evaluator(core, env=ov or {}, resolve=True).elems(funds[0], {}))
+        P = refexec.Program(tree, n)
+        if P.overlap() is not None or P.repeated_qubit_gate() is not None:
+            return None
+        scan = P.flat_scan()
+        if scan["trailing_gates"]:
+            return None
+    except (M.MeaningError, M.OracleError, refexec.Reject):
+        return None
+    return True
+
+
+def two_level(prog, kind):
+    """Two macros that every variant names alike, `out0` calling `in0`: with kind "G" in0 is one gate and the ordinary gates
+    inside subcircuit blocks become calls of out0; with kind "S" in0 IS the first subcircuit block (gates only) and out0
+    stands where that block stood.  Same bracket structure as `prog`; what the two names hold differs from program to
+    program of one process."""
+    hdr_end = max([i for i, x in enumerate(prog) if isinstance(x, tuple) and x[0] in sx.HEADER] + [0])
+    if kind == "G":
+        hit = [False]
+
+        def rw(s, in_sub):
+            if not isinstance(s, tuple):
+                return s
+            if s[0] == "gate" and s[1] == "X" and in_sub:
+                hit[0] = True
+                return ("gate", "out0") + s[2:]
+            return tuple(rw(x, in_sub or s[0] == "subcircuit_block") for x in s)
+
+        out = rw(prog, False)
+        if not hit[0]:
+            return None
+        macros = (("macro", "in0", "a", ("sequential_block", ("gate", "X", "a"))),
+                  ("macro", "out0", "a", ("sequential_block", ("gate", "in0", "a"))))
+        return out[:hdr_end + 1] + macros + out[hdr_end + 1:]
+    found = []
+
+    def rw2(s):
+        if not isinstance(s, tuple):
+            return s
+        if s[0] == "subcircuit_block" and not found and all(isinstance(x, tuple) and x[0] == "gate" for x in s[2:]):
+            found.append(s)
+            return ("gate", "out0")
+        return tuple(rw2(x) for x in s)
+
+    out = rw2(prog)
+    if not found:
+        return None
+    if kind == "N":
+        # the call of out0 -- which holds a subcircuit -- itself inside a subcircuit block: an illegal nesting, to be refused
+        def wrap(s):
+            if s == ("gate", "out0"):
+                return ("subcircuit_block", "", s)
+            return tuple(wrap(x) for x in s) if isinstance(s, tuple) else s
+
+        out = wrap(out)
+    macros = (("macro", "in0", ("sequential_block", found[0])), ("macro", "out0", ("sequential_block", ("gate", "in0"))))
+    return out[:hdr_end + 1] + macros + out[hdr_end + 1:]
 
 
 def idle_variant(prog):
@@ -296,6 +414,17 @@ def shard(ctx):
                 if mp is not None:
                     process(ctx, {"prog": mp, "assemble": "builder", "bseed": ctx.rng.randrange(1 << 30)}, seen, minimise_budget=0)
                     rec.count("bracket-programs-through-CircuitBuilder")
+            if j % 5 == 2:
+                process(ctx, {"prog": prog, "grow": ctx.rng.randint(1, 3)}, seen, minimise_budget=0)
+                rec.count("circuits-grown-between-runs")
+            if j % 4 == 3:
+                # what the macro names in0 / out0 hold changes from one program to the next
+                # (state that outlives a build is settled by whichever kind comes first in a process: the order differs by shard)
+                for kind in (("G", "S", "N", "G") if ctx.index % 2 == 0 else ("N", "S", "G", "G")):
+                    tp = two_level(prog, kind)
+                    if tp is not None:
+                        process(ctx, {"prog": tp}, seen, minimise_budget=0)
+                        rec.count("two-level-macro-programs:" + kind)
             if j % 3 == 0:
                 lp = letify(ctx.rng, prog)
                 if lp is not None:
